@@ -640,6 +640,7 @@ static void fault_site(char *out, size_t n)
 static trace_t BASE[64];
 static long BASE_N[64];
 static int base_done[64];
+static int fds_base[64];   /* descriptors the fault-free scenario itself leaves open (0 everywhere, as it should be) */
 
 static void run_scenario(int s, trace_t *t, long fail_k)
 {
@@ -659,6 +660,20 @@ static void run_scenario(int s, trace_t *t, long fail_k)
 }
 
 static long n_same, n_reported, n_consumed;
+
+/* open descriptors of the process (the one the listing itself uses included, every time) */
+#include <dirent.h>
+static int open_fds(void)
+{
+	DIR *d = opendir("/proc/self/fd");
+	int n = 0;
+	if (!d)
+		return -1;
+	while (readdir(d))
+		n++;
+	closedir(d);
+	return n;
+}
 
 static void judge(int s, long k, const trace_t *f)
 {
@@ -745,7 +760,9 @@ static void enumerate(void)
 		total_allocs += N;
 		/* determinism of the fault-free run itself */
 		trace_t t1 = { 0 };
+		int fb0 = open_fds();
 		run_scenario(s, &t1, 0);
+		fds_base[s] = open_fds() - fb0;
 		if (t1.n != t0.n || vf_alloc_total() != N) {
 			fprintf(stderr, "oom: scenario %s is not deterministic (%ld vs %ld allocations)\n", SCEN[s].name, N, vf_alloc_total());
 			exit(2);
@@ -760,7 +777,14 @@ static void enumerate(void)
 			if (!vf_case("scenario '%s' (%ld allocations): allocation #%ld returns NULL", SCEN[s].name, N, k))
 				continue;
 			trace_t tf = { 0 };
+			int fds0 = open_fds();
 			run_scenario(s, &tf, k);
+			int fds1 = open_fds();
+			/* a file or stream the faulted call opened and never closed: every such failure costs the process a descriptor, and once they
+			 * run out the fault-free calls fail too */
+			if (fds0 >= 0 && fds1 != fds0 + fds_base[s])
+				vf_violation("descriptor-left-open", "scenario '%s', allocation #%ld failing: %d descriptor(s) more are open afterwards than after the fault-free run", SCEN[s].name, k,
+					     fds1 - fds0 - fds_base[s]);
 			if (vf_alloc_failed() != 1)
 				vf_violation("harness|fault-not-delivered", "allocation #%ld of %ld was never requested", k, N);
 			else
